@@ -62,7 +62,7 @@ def rule_indent(cx, tier):
             sites.setdefault(v or "?", []).append((fn, c))
     r.analysed = {"error_constructor_calls": n_ctor, "expected_indentation_sites": sum(len(v) for v in sites.values()),
                   "variants_with_sites": sorted(k for k in sites)}
-    r.floor("parser error constructor call sites", n_ctor, 100)
+    r.floor("parser error constructor call sites", n_ctor, 75)
     for variant, what in REQUIRED.items():
         r.instances += 1
         r.nontrivial += 1
@@ -156,7 +156,7 @@ def rule_indent_chain(cx, tier):
                                      "loader error before stringifying it")
     fns = [f for f in cx.F.fns.values() if f.method == "is_indentation_error" and f.kind != "Closure"]
     r.analysed = {"is_indentation_error_fns": sorted(f.qual for f in fns)}
-    r.floor("is_indentation_error implementations", len(fns), 5)
+    r.floor("is_indentation_error implementations", len(fns), 3)
     base = cx.need_fn("koto_parser::Error::is_indentation_error")
     for fn in fns:
         r.instances += 1
@@ -360,7 +360,7 @@ def rule_fmt_fields(cx, tier):
                 else:
                     variant = None
     r.analysed = {"ast_types": len(adts), "format_functions": n_fn, "distinct_field_reads": len(reads)}
-    r.floor("koto_format functions", n_fn, 60)
+    r.floor("koto_format functions", n_fn, 45)
     n_fields = 0
     for name in sorted(adts):
         a = cx.F.adts[name]
@@ -381,7 +381,7 @@ def rule_fmt_fields(cx, tier):
                                   f"so formatting cannot preserve it", a["file"], a["line"]))
                 r.sample({"type": key_adt, "field": f[0], "read_by_formatter": hit}, limit=12)
     r.analysed["ast_fields"] = n_fields
-    r.floor("AST payload fields", n_fields, 100)
+    r.floor("AST payload fields", n_fields, 75)
     return r
 
 
@@ -489,7 +489,7 @@ def rule_column_bytes(cx, tier):
                               f"characters / display columns: after a multi-byte character on the same line the slice is "
                               f"shifted (formatted numbers lose digits) or cuts a character (panic: 'not a char boundary')",
                               fn.file, c.line))
-    r.floor("str slicing sites outside the lexer", n, 8)
+    r.floor("str slicing sites outside the lexer", n, 6)
     return r
 
 
@@ -595,7 +595,7 @@ def rule_fmt_spec(cx, tier):
                                   f"`{f}` is only read (and re-emitted) on one outcome of a test of `{', '.join(culprit[1])}` "
                                   f"(line {line_of(fn, culprit[0])}): a spec that sets `{f}` without it loses `{f}` when "
                                   f"formatted", fn.file, line_of(fn, bb)))
-    r.floor("format spec field reads", reads_total, 5)
+    r.floor("format spec field reads", reads_total, 3)
     r.analysed = {"functions": [f.qual for f, _ in subjects], "field_reads": reads_total}
     return r
 
